@@ -23,8 +23,11 @@ Record hobs := mkObs {
   b_dblk : list (N * list N)       (* pending hostinfos: new or changed *)
 }.
 
+(* [CHsF]: [forged] lists the stage-1 payloads of the history that are altered copies (peer time rewritten) of an
+   earlier genuine payload: the witness of known finding F27 *)
 Inductive case :=
-| CHs (cfg : config) (steps : list hobs) (final : HostMap.state).
+| CHs (cfg : config) (steps : list hobs) (final : HostMap.state)
+| CHsF (cfg : config) (forged : list N) (steps : list hobs) (final : HostMap.state).
 
 Definition apply_delta {V} (d : list (N * option V)) (m : amap V) : amap V :=
   fold_left (fun m e => match snd e with Some v => mset (fst e) v m | None => mdel (fst e) m end) d m.
@@ -73,9 +76,13 @@ Definition valid_stage1 (cfg : config) (cs cert : list N) : bool :=
   match gen_index cs with Some _ => true | None => false end.
 
 (* C10 *)
-Definition spec10_step (cfg : config) (o : hop) (outs : list out) (p d : hstate) : bool :=
+Definition spec10_step (cfg : config) (forged : list N) (o : hop) (outs : list out) (p d : hstate) : bool :=
   match o with
   | RespStage1 pkt cs ridx t cert v =>
+      (* the reading "a replayed - possibly altered - first message never replaces the primary": an altered copy of
+         a captured stage 1 creates nothing and changes no map.  The code does not satisfy it (the first IX message is
+         not authenticated when the responder acts on it): known finding F27 *)
+      (if mem pkt forged then maps_eqb (hm p) (hm d) && infos_same p d else true) &&
       match cert with
       | [] => true
       | a0 :: _ =>
@@ -156,19 +163,19 @@ Definition spec09_step (cfg : config) (o : hop) (outs : list out) (p d : hstate)
 
 Record wstate := mkW { w_model : hstate; w_prev : hstate }.
 
-Definition walk_step (which : N) (cfg : config) (w : wstate) (b : hobs) : wstate * list N :=
+Definition walk_step (which : N) (cfg : config) (forged : list N) (w : wstate) (b : hobs) : wstate * list N :=
   let (m', om) := hstep cfg (b_op b) (w_model w) in
   let p := w_prev w in
   let d := dump_of p b in
   let e1 := flag 1 (outs_eqb om (b_outs b) && obs_eqb m' d) in
   let e2 := flag 2 (if which =? 9 then spec09_step cfg (b_op b) (b_outs b) p d
-                    else spec10_step cfg (b_op b) (b_outs b) p d) in
+                    else spec10_step cfg forged (b_op b) (b_outs b) p d) in
   (mkW m' d, e1 ++ e2).
 
-Fixpoint walk (which : N) (cfg : config) (w : wstate) (l : list hobs) (final : HostMap.state) : list N :=
+Fixpoint walk (which : N) (cfg : config) (forged : list N) (w : wstate) (l : list hobs) (final : HostMap.state) : list N :=
   match l with
   | [] => flag 1 (maps_eqb (hm (w_prev w)) final)     (* the reconstructed dump is the implementation's dump *)
-  | b :: r => let (w', e) := walk_step which cfg w b in e ++ walk which cfg w' r final
+  | b :: r => let (w', e) := walk_step which cfg forged w b in e ++ walk which cfg forged w' r final
   end.
 
 Definition dedup_codes (l : list N) : list N :=
@@ -176,7 +183,8 @@ Definition dedup_codes (l : list N) : list N :=
 
 Definition check_with (which : N) (c : case) : list N :=
   match c with
-  | CHs cfg l f => dedup_codes (walk which cfg (mkW hinit hinit) l f)
+  | CHs cfg l f => dedup_codes (walk which cfg [] (mkW hinit hinit) l f)
+  | CHsF cfg forged l f => dedup_codes (walk which cfg forged (mkW hinit hinit) l f)
   end.
 
 Definition check_case09 : case -> list N := check_with 9.
